@@ -1145,15 +1145,22 @@ func (ro *RedisOutput) sendCmdsBatch(replayWait usync.WaitCloser, conn client.Re
 			return err
 		}
 
-		// a cluster executes the parts of one batch on several nodes concurrently : the node of the checkpoint
-		// key must not apply the position while a data command fails on another node, so without a
-		// transaction the position follows in a batch of its own, once the data commands went through
-		if !isPipeline && !shouldInTransaction && shouldUpdateCP && ro.cfg.EnableResumeFromBreakPoint &&
+		// a cluster executes the parts of one batch on several nodes concurrently, and its client drops
+		// multi/exec (they only keep a batch together), so even the node of the checkpoint key applies the
+		// position after a data command of the same batch was refused : the position follows in a batch
+		// of its own, once the data commands went through
+		if !isPipeline && shouldUpdateCP && ro.cfg.EnableResumeFromBreakPoint &&
 			ro.cfg.Redis.IsCluster() && batcher.Len() > 0 {
+			if shouldInTransaction {
+				batcher.Put("exec")
+			}
 			if _, err := batcher.Exec(); err != nil {
 				return failed(err)
 			}
 			batcher = conn.NewBatcher(isPipeline)
+			if shouldInTransaction {
+				batcher.Put("multi")
+			}
 		}
 
 		if shouldUpdateCP {
